@@ -36,7 +36,7 @@ func genValidHistory(t *rapid.T, o gwOpts, maxPayload int) []PktSpec {
 	}
 	h = append(h, PktSpec{K: "tc", Cookie: cookie}, PktSpec{K: "ta"}, PktSpec{K: "cc", Host: "A"})
 	n := rapid.IntRange(0, 6).Draw(t, "ndata")
-	bulk := rapid.IntRange(0, 4).Draw(t, "bulk") == 0 // many large data packets: more than one maximal packet's worth of bytes in flight
+	bulk := maxPayload >= 16384 && rapid.IntRange(0, 4).Draw(t, "bulk") == 0 // many large data packets: more than one maximal packet's worth of bytes in flight
 	if bulk {
 		n = rapid.IntRange(6, 14).Draw(t, "nbulk")
 	}
